@@ -635,9 +635,22 @@ func (e *Engine) heapGet(st *State, name, sort string) string {
 }
 
 func (e *Engine) heapSet(st *State, name, sort, term string) {
+	e.preservedWrite(st, name)
 	e.vc.heapSort[name] = sort
 	e.vc.written[name] = true
 	st.heap[name] = e.vc.define("H_"+name, sort, term)
+}
+
+// preservedWrite: a write (store, or a callee's modifies/havoc) to a heap map that the
+// verified function's contract lists under `preserves` must be unreachable.
+func (e *Engine) preservedWrite(st *State, name string) {
+	c := e.curContract
+	if c == nil || len(c.Preserves) == 0 || !matchPreserve(name, c.Preserves) {
+		return
+	}
+	e.vc.counters["preserves:"+name]++
+	e.vc.oblige(fmt.Sprintf("preserves:%s#%d", sanitizeSym(name), e.vc.counters["preserves:"+name]), st.pc, "false",
+		"the function (or a callee) may write "+name+", which its contract says it preserves")
 }
 
 // merge states (pcs assumed pairwise disjoint)
